@@ -63,6 +63,7 @@ const (
 	c31KeyStats     = "C31/accounting/stats-differ-from-per-packet-outcomes"
 	c31KeyNoAddr    = "C31/delay/accepted-into-sender-that-has-no-upstream-address"
 	c31KeyHang      = "C31/delay/hung-upstream-write-never-times-out"
+	c31KeyNoRecon   = "C31/delay/stuck-sender-not-reconnected-after-failover"
 )
 
 // ---------------------------------------------------------------- packets
@@ -139,6 +140,7 @@ type c31Up struct {
 	conns      []*c31Conn
 	stalled    atomic.Bool
 	throttleUs atomic.Int64 // > 0: read at most 2 KB, then sleep that many microseconds (a slow upstream)
+	rateBps    atomic.Int64 // > 0: read at this many bytes per second on average (oversleeping is made up for)
 	closeAfter []int // by accept index; 0 = never
 	wg         sync.WaitGroup
 }
@@ -251,16 +253,30 @@ func (c *c31Conn) read(limit int) {
 	tmp := make([]byte, 256<<10)
 	var pend []byte
 	var scratch []byte
+	var rateT0 time.Time
+	var rateN int64
 	for {
 		for c.up.stalled.Load() {
 			time.Sleep(2 * time.Millisecond)
 		}
 		rb := tmp
+		if rate := c.up.rateBps.Load(); rate > 0 {
+			if rateT0.IsZero() {
+				rateT0, rateN = time.Now(), 0
+			}
+			rb = tmp[:2048]
+			if due := rateT0.Add(time.Duration(float64(rateN) / float64(rate) * float64(time.Second))); time.Until(due) > 0 {
+				time.Sleep(time.Until(due))
+			}
+		} else if !rateT0.IsZero() {
+			rateT0 = time.Time{}
+		}
 		if th := c.up.throttleUs.Load(); th > 0 {
 			rb = tmp[:2048]
 			time.Sleep(time.Duration(th) * time.Microsecond)
 		}
 		n, err := c.nc.Read(rb)
+		rateN += int64(n)
 		now := time.Now()
 		if n > 0 {
 			pend = append(pend, tmp[:n]...)
@@ -432,6 +448,7 @@ type c31Env struct {
 
 	reported     atomic.Int64
 	reportFrames atomic.Int64
+	noFailover   bool
 	pushMu       sync.Mutex // serialises producers where per-packet outcomes are needed (the handler serialises them anyway)
 	hostTag  string
 	block    []byte
@@ -758,6 +775,9 @@ func (v *c31Env) quiesce() {
 		if polls >= 150 && v.ownedBySenderWithoutAddress(v.stuckNow()) {
 			break // structural evidence: nothing can ever leave that buffer
 		}
+		if polls >= 150 && v.sc.Kind == "stuck-primary-reconnect" {
+			break // a wake-up cannot shorten a write into a slow connection
+		}
 		if polls >= 150 && v.sc.Kind == "upstream-hang-failover" && v.e.stats.writeErrors.Load() == 0 {
 			break // the senders sit in a write that has no deadline: a wake-up cannot reach them
 		}
@@ -787,6 +807,11 @@ func (v *c31Env) quiesce() {
 			v.r.NotJudged("drop_report_pending_behind_a_write_that_never_times_out", 1)
 		}
 		v.viol(c31KeyHang, fmt.Sprintf("%d accepted packet(s) are still buffered 15 s (2.5 x the configured write timeout of %v) after the upstreams holding the connections stopped reading; no write error was counted, so the senders never left the blocked write although each has a healthy second address", len(stuck), v.e.cfg.WriteTimeout), extra)
+	case len(stuck) > 0 && v.sc.Kind == "stuck-primary-reconnect":
+		for _, id := range stuck {
+			v.explained[id] = true
+		}
+		v.viol(c31KeyNoRecon, fmt.Sprintf("%d accepted packet(s) (first id %d) are still not forwarded 15 s after the full primary buffer made the next packet fail over to the secondary: the sender on the slow connection (about 100 KB/s) was not made to reconnect to its healthy second address (write timeout is %v, stuck-reconnect delay %v)", len(stuck), stuck[0], v.e.cfg.WriteTimeout, v.e.cfg.StuckReconDelay), extra)
 	case len(stuck) > 0:
 		v.viol(c31KeyStuck, fmt.Sprintf("%d accepted packet(s) not forwarded 15 s after the last packet, %d still not after waking the senders", len(stuck), len(still)), extra)
 	}
@@ -1141,6 +1166,8 @@ func c31RunScenario(r *verifkit.Run, sc *c31Scenario) {
 	}
 	for _, u := range v.ups {
 		u.stalled.Store(false)
+		u.rateBps.Store(0)
+		u.throttleUs.Store(0)
 	}
 	v.stats = v.e.Stats() // before handler.Close(), which calls Stats() itself (swap to zero)
 	v.h.Close()
@@ -1154,6 +1181,8 @@ func c31RunScenario(r *verifkit.Run, sc *c31Scenario) {
 		nontrivial = nontrivial && v.nDropped > 0 && v.reportFrames.Load() >= 2
 	case "stall-overflow", "single-address-overflow":
 		nontrivial = nontrivial && v.nDropped > 0
+	case "stuck-primary-reconnect":
+		nontrivial = nontrivial && !v.noFailover
 	case "upstream-hang-failover":
 		nontrivial = nontrivial && v.nDropped > 0
 	case "upstream-close":
@@ -1238,7 +1267,7 @@ func c31Sizes(rnd *rand.Rand, class string) int {
 
 func c31Scenarios(r *verifkit.Run) []*c31Scenario {
 	rnd := r.Rand("scenarios")
-	kinds := []string{"lone-after-idle", "pair", "small-burst", "burst-with-tail", "sparse-fast", "sparse-slow", "multi-producer", "edge-sizes", "upstream-close", "stall-overflow", "late-upstream", "burst-with-tail", "pair", "stall-overflow", "upstream-close", "upstream-hang-failover", "overflow-while-reporting", "report-over-slow-connection", "multi-producer", "single-address-overflow"}
+	kinds := []string{"lone-after-idle", "pair", "small-burst", "burst-with-tail", "sparse-fast", "sparse-slow", "multi-producer", "edge-sizes", "upstream-close", "stall-overflow", "late-upstream", "burst-with-tail", "pair", "stall-overflow", "upstream-close", "upstream-hang-failover", "overflow-while-reporting", "report-over-slow-connection", "stuck-primary-reconnect", "single-address-overflow"}
 	n := r.N(20, 240)
 	var out []*c31Scenario
 	for i := 0; i < n; i++ {
@@ -1406,6 +1435,64 @@ func c31Scenarios(r *verifkit.Run) []*c31Scenario {
 					v.mu.Unlock()
 					if d >= sc.wantDrops || n >= 800 && v.e.stats.writeErrors.Load() > 0 {
 						break
+					}
+				}
+			}
+		case "stuck-primary-reconnect":
+			// every sender has two upstream addresses; the upstreams holding the first connections read
+			// at about 100 KB/s (and the sockets buffer next to nothing).  A first batch keeps the primary
+			// sender inside a slow write while the producer fills the primary buffer; the next packet
+			// fails over to the secondary.  The failover must ask the slow sender to reconnect (reconCh):
+			// once its current write is through it closes the connection and sends the full buffer over
+			// its healthy second address.  The write timeout is long, so nothing else can rescue it.
+			sc.nAddr = 4
+			sc.stall = true // small receive buffers; un-stalled at once, rate-limited instead
+			sc.cfg.WriteTimeout = 90 * time.Second
+			sc.cfg.StuckReconDelay = 100 * time.Millisecond
+			sc.cfg.ReconnectDelay = 100 * time.Millisecond
+			sc.cfg.DNSRefreshInterval = time.Hour
+			sc.realHandler = false
+			first := 5000 + rnd.IntN(2000)
+			big := 18000 + rnd.IntN(6000)
+			sc.Params = fmt.Sprintf("first_batch=40x%d buffer=%dx%d rate=100KB/s write_timeout=90s", first, bufferLen, big)
+			sc.run = func(v *c31Env) {
+				_, buf := mk()
+				for _, u := range v.ups {
+					u.mu.Lock()
+					live := len(u.conns) > 0
+					u.mu.Unlock()
+					if live {
+						u.rateBps.Store(100 << 10)
+					}
+					u.stalled.Store(false)
+				}
+				v.r.Count("stuckrecon.balancer_sockets_with_minimal_send_buffer", int64(v.shrinkSendBuffers()))
+				prim := v.e.pool.primary
+				id := uint64(0)
+				for i := 0; i < bufferLen*20/100; i++ {
+					id++
+					v.push(id, first, buf)
+				}
+				// the sender takes the batch (write index back to 0) and sits in the slow write
+				for t0 := time.Now(); time.Since(t0) < 30*time.Second; time.Sleep(200 * time.Microsecond) {
+					prim.buf.mu.Lock()
+					wi := prim.buf.wi
+					prim.buf.mu.Unlock()
+					if wi == 0 {
+						break
+					}
+				}
+				for i := 0; i <= bufferLen; i++ { // bufferLen packets fill the buffer, one more fails over
+					id++
+					v.push(id, big, buf)
+				}
+				// only this goroutine offers packets, so the pointers are stable now
+				if *v.e.pool.primPtr != v.e.pool.secondary {
+					// the sender got rid of the first batch before the buffer was full: no failover, nothing to judge
+					v.r.NotJudged("stuck_primary_reconnect_no_failover_happened", 1)
+					v.noFailover = true
+					for _, u := range v.ups {
+						u.rateBps.Store(0)
 					}
 				}
 			}
